@@ -95,10 +95,11 @@ func VP_C09_nbt() {
 // of the whole run - any of them - is cut short after any number of bytes
 // (chosen lazily at the calls the cut can actually split).
 type vpCutReader struct {
-	b     []byte
-	pos   int
-	chunk int
-	once  bool
+	b           []byte
+	pos         int
+	chunk       int
+	once        bool
+	eofWithData bool // the read delivering the last byte of the stream also returns io.EOF
 }
 
 func (r *vpCutReader) Read(p []byte) (int, error) {
@@ -122,23 +123,27 @@ func (r *vpCutReader) Read(p []byte) (int, error) {
 	}
 	copy(p, r.b[r.pos:r.pos+n])
 	r.pos += n
+	if r.eofWithData && r.pos == len(r.b) {
+		return n, io.EOF
+	}
 	return n, nil
 }
 
 // vpSchedule picks a delivery schedule for a stream of n bytes: fixed chunks of
 // 1, 2, 3 or 5 bytes, or contiguous delivery with one short read anywhere.
 func vpSchedule(b []byte) *vpCutReader {
+	e := vp.Bool()
 	switch vp.Choice(5) {
 	case 0:
-		return &vpCutReader{b: b, chunk: 1}
+		return &vpCutReader{b: b, chunk: 1, eofWithData: e}
 	case 1:
-		return &vpCutReader{b: b, chunk: 2}
+		return &vpCutReader{b: b, chunk: 2, eofWithData: e}
 	case 2:
-		return &vpCutReader{b: b, chunk: 3}
+		return &vpCutReader{b: b, chunk: 3, eofWithData: e}
 	case 3:
-		return &vpCutReader{b: b, chunk: 5}
+		return &vpCutReader{b: b, chunk: 5, eofWithData: e}
 	}
-	return &vpCutReader{b: b, once: true}
+	return &vpCutReader{b: b, once: true, eofWithData: e}
 }
 
 // vpFailWriter accepts limit bytes and fails the write that crosses the limit;
@@ -170,7 +175,7 @@ func VP_C09_typed() {
 	v := vpMkDoc()
 	doc := append([]byte{TagCompound}, vpRefDoc(v)...)
 	if vp.Choice(2) == 0 {
-		r := vpSchedule(append(append([]byte{}, doc...), 0x31))
+		r := vpSchedule(vpStream(doc))
 		d := NewDecoder(r)
 		d.NetworkFormat(true)
 		var got vpDoc
@@ -331,7 +336,7 @@ func VP_C09_root_targets() {
 		return got, err
 	}
 	if vp.Choice(2) == 0 {
-		r := vpSchedule(append(append([]byte{}, doc...), 0x31))
+		r := vpSchedule(vpStream(doc))
 		got, err := dec(r)
 		vp.Assert(err == nil, "same error-ness under fragmentation")
 		vp.Assert(r.pos == len(doc), "same residual stream under fragmentation")
@@ -415,10 +420,19 @@ func VP_C09_root_carriers() {
 	r1 := &vpByteReader{b: append(append([]byte{}, payload...), 0x31)}
 	v1, e1 := dec(r1)
 	vp.Assert(e1 == nil && r1.pos == len(payload), "contiguous read consumes exactly the value")
-	r2 := vpSchedule(append(append([]byte{}, payload...), 0x31))
+	r2 := vpSchedule(vpStream(payload))
 	v2, e2 := dec(reader{r2})
 	vp.Assert(e2 == nil, "same error-ness under fragmentation")
 	vp.Assert(r2.pos == len(payload), "same residual stream under fragmentation")
 	vp.Assert(v1 == v2, "same value under fragmentation")
 	vp.Cover("end")
+}
+
+// vpStream: the document followed by one more byte, or ending the stream (then
+// the read delivering its last byte may come with io.EOF).
+func vpStream(doc []byte) []byte {
+	if vp.Bool() {
+		return append(append([]byte{}, doc...), 0x31)
+	}
+	return append([]byte{}, doc...)
 }
